@@ -87,7 +87,9 @@ def run(prop, tier, seed, replay):
             cdeg = np.column_stack([nprng.uniform(10, 60, N), nprng.uniform(-40, 40, N)])
             pid = np.arange(n) % N
             nprng.shuffle(pid)
-            dtype = rng.choice(["f8", "f8", "f4", "i8", "i4", "u1"]) if source == "df" else "f8"
+            # data-frame sources (ci % 6 in 0, 2, 5) cycle through the column dtypes, so that every dtype meets both
+            # `degrees` settings in every run
+            dtype = ["f8", "f4", "i8", "f4", "i4", "u1", "f8", "f4"][(ci // 2) % 8] if source == "df" else "f8"
             ra = cdeg[pid, 0] + nprng.uniform(-2, 2, n)
             dec = cdeg[pid, 1] + nprng.uniform(-2, 2, n)
             if dtype in ("i8", "i4", "u1"):
